@@ -13,6 +13,7 @@ import (
 	"os/exec"
 	"strings"
 	"sync"
+	"syscall"
 	"time"
 )
 
@@ -44,13 +45,37 @@ func (o *outBuf) waitSuffix(want string, d time.Duration) bool {
 // emitPPPipe: pieces are written one by one; after piece i the output must end with expectTail[i]
 // ("" = nothing to check for that piece)
 func emitPPPipe(id string, pieces []string, expectTail []string) {
-	cmd := exec.Command(os.Getenv("VERIF_PP"), "-rebase=false", "-no-color")
+	args := []string{"-rebase=false", "-no-color"}
+	// "fifo" cases: pp is given a FILE argument that is a named pipe (pp <(cmd), /dev/stdin, a FIFO)
+	fifo := ""
+	if strings.Contains(id, "fifo") {
+		os.MkdirAll("/tmp/vhg", 0o755)
+		fifo = fmt.Sprintf("/tmp/vhg/fifo-%d-%s", os.Getpid(), id)
+		os.Remove(fifo)
+		if err := syscall.Mkfifo(fifo, 0o600); err != nil {
+			panic(err)
+		}
+		defer os.Remove(fifo)
+		args = append(args, fifo)
+	}
+	cmd := exec.Command(os.Getenv("VERIF_PP"), args...)
 	cmd.Env = []string{"PATH=/usr/bin:/bin", "HOME=/tmp", "GOTRACEBACK=all"}
-	stdin, _ := cmd.StdinPipe()
+	var stdin io.WriteCloser
+	if fifo == "" {
+		stdin, _ = cmd.StdinPipe()
+	}
 	ob := &outBuf{}
 	cmd.Stdout = ob
 	if err := cmd.Start(); err != nil {
 		panic(err)
+	}
+	if fifo != "" {
+		// blocks until pp has opened the pipe for reading
+		f, err := os.OpenFile(fifo, os.O_WRONLY, 0)
+		if err != nil {
+			panic(err)
+		}
+		stdin = f
 	}
 	var oks []string
 	for i, p := range pieces {
@@ -128,7 +153,11 @@ func opPPPipe(r *rand.Rand, n int, tier string) {
 				}
 			}
 		}
-		emitPPPipe(fmt.Sprintf("pppipe-%d", i), pieces, tails)
+		id := fmt.Sprintf("pppipe-%d", i)
+		if i%3 == 2 {
+			id = fmt.Sprintf("pppipe-fifo-%d", i)
+		}
+		emitPPPipe(id, pieces, tails)
 	}
 }
 
